@@ -226,6 +226,12 @@ class Hist:
             if pending_ann[m] is not None:
                 self.queue[m].append(ann)
         self.flush_all()
+        # the SENDER's own echo of the announcing message comes back from the relay only now — after the k commits, i.e. in a later
+        # epoch than the one the file was encrypted in; it confirms the stored copy and must not move the file's epoch hint: the
+        # sender still opens its own upload
+        if k and r.random() < 0.6:
+            self.deliver(c, ann)
+            self.op(f"decrypt {c} {f} -", role="member", f=f)
         self.probe_all(f)
 
     def probe_all(self, f, final=False):
@@ -375,6 +381,7 @@ def hist_oracle(cases):
                       "replay_body": hist_text(c, k, what), "case": c})
     for c in cases:
         enc_epoch, processed, at_epoch = {}, {}, {}
+        fhash_o = {}           # file -> content hash (from the encrypt answer)
         announced = set()      # (client, f): the client created the announcing message itself (stored at once, state Created)
         for k, (op, res) in enumerate(zip(c["ops"], c["res"])):
             t = op.split()
@@ -384,6 +391,7 @@ def hist_oracle(cases):
             if t[0] == "encrypt":
                 if res.startswith("ok"):
                     enc_epoch[int(t[2])] = int(kvs(res)["epoch"])
+                    fhash_o[int(t[2])] = kvs(res).get("hash")
                 else:
                     fail(c, k, "media-encrypt-refused", f"a valid upload was refused: {res[:100]}")
             elif t[0] == "announce" and res.startswith("ev="):
@@ -420,7 +428,11 @@ def hist_oracle(cases):
                         # mechanism of the open finding: the hint is the receiver's epoch at processing time, not the file's
                         # epoch, while the right secret is still stored under the file's own epoch
                         late = at_epoch.get((int(t[1]), f)) != enc_epoch[f]
-                        if kv.get("hint", "-") != "-" and int(kv["hint"]) != enc_epoch[f] and not late:
+                        shared = any(g != f and fhash_o.get(g) is not None and fhash_o.get(g) == fhash_o.get(f) for g in fhash_o)
+                        if kv.get("hint", "-") != "-" and int(kv["hint"]) != enc_epoch[f] and not late and not shared:
+                            # no other file of this history has this content hash: the hint of THIS file's own announcing message moved
+                            fail(c, k, "media-hint-moved", f"the announcing message was processed / created in the file's own epoch ({enc_epoch[f]}) and no other file shares its content hash, yet the hint now says epoch {kv['hint']}: {res[:120]}")
+                        elif kv.get("hint", "-") != "-" and int(kv["hint"]) != enc_epoch[f] and not late:
                             fail(c, k, "hint-points-to-other-message", f"the announcing message was processed in the file's own epoch ({enc_epoch[f]}), yet the hint found for the file's hash is epoch {kv['hint']} (another stored message carries the same content hash): {res[:120]}")
                         elif kv.get("hint", "-") != "-" and int(kv["hint"]) != enc_epoch[f] and table.get(str(enc_epoch[f])) == kv["enc"]:
                             st["late_announce_failures"] += 1
